@@ -122,6 +122,30 @@ Theorem bundle_no_bad_base64 :
     parse hdr = Some toks -> ~ In (PBadBase64 s) (bundle_parts hdr).
 Proof. exact (@bundle_no_bad_base64_l). Qed.
 
+Theorem perm_and_dis_spec :
+    forall (T : Type) (decode : bytes -> option T) (loc_eqb : T -> bool) (toks : list bytes)
+      (p : bytes) (ds : list bytes),
+    perm_and_dis decode loc_eqb toks = Some (p, ds) ->
+    filter (fun t : bytes => match decode t with
+                             | Some m => loc_eqb m
+                             | None => false
+                             end) toks = [p] /\
+    ds =
+    filter (fun t : bytes => match decode t with
+                             | Some m => negb (loc_eqb m)
+                             | None => false
+                             end) toks /\
+    In p toks /\ (exists m : T, decode p = Some m /\ loc_eqb m = true).
+Proof. exact (@perm_and_dis_spec_l). Qed.
+
+Theorem perm_and_dis_none :
+    forall (T : Type) (decode : bytes -> option T) (loc_eqb : T -> bool) (toks : list bytes),
+    List.length (filter (fun t : bytes => match decode t with
+                                          | Some m => loc_eqb m
+                                          | None => false
+                                          end) toks) <> 1%nat -> perm_and_dis decode loc_eqb toks = None.
+Proof. exact (@perm_and_dis_none_l). Qed.
+
 Print Assumptions b64_dec_enc.
 Print Assumptions b64_char_alphabet.
 Print Assumptions b64_encode_chars.
@@ -140,3 +164,5 @@ Print Assumptions parse_to_header.
 Print Assumptions find_perm_dis_spec.
 Print Assumptions bundle_tokeniser_agrees.
 Print Assumptions bundle_no_bad_base64.
+Print Assumptions perm_and_dis_spec.
+Print Assumptions perm_and_dis_none.
